@@ -23,14 +23,29 @@ import (
 // every payload type) and with unreachable records added through AddEnr; then GossipAndReturnPeers.
 
 var eventMu sync.Mutex
+var pingGateMu sync.Mutex
+var pingGate = map[enode.ID]chan struct{}{}
 var pingDone = map[*portalwire.PortalProtocol]chan struct{}{} // not keyed per node by the hook: one scenario at a time uses it
 
 func runGossip(w *tracelog.Writer, seed int64, scenarios int) error {
 	// processPing runs asynchronously; its completion event lets deliveries be strictly sequential
 	done := make(chan enode.ID, 1024)
 	portalwire.VerifEvent = func(name string, arg interface{}) {
-		if name == "processPing.done" {
+		switch name {
+		case "processPing.done":
 			done <- arg.(enode.ID)
+		case "processPing.start":
+			// forced interleaving: the processing of one ping is held back while a later ping of the same node goes through
+			pingGateMu.Lock()
+			g := pingGate[arg.(enode.ID)]
+			delete(pingGate, arg.(enode.ID))
+			pingGateMu.Unlock()
+			if g != nil {
+				select {
+				case <-g:
+				case <-time.After(10 * time.Second):
+				}
+			}
 		}
 	}
 	defer func() { portalwire.VerifEvent = nil }()
@@ -261,6 +276,53 @@ func gossipScenario(w *tracelog.Writer, t int, seed int64, done chan enode.ID) e
 		}
 		ev["intable"], ev["isentry"], ev["newentry"] = inTable(p.node.ID()), isEntry(vt, p.node.ID()), false
 		w.Emit(ev)
+	}
+	// two pings of one node in quick succession: each is processed in its own goroutine, the first one is held back
+	if t%3 == 2 && len(raws) > 0 {
+		var p *peer
+		for _, c := range raws {
+			if isEntry(vt, c.node.ID()) {
+				p = c
+			}
+		}
+		if p != nil {
+			var typ uint16 = pingext.ClientInfo
+			r1, r2 := uint256.NewInt(uint64(100+rng.Intn(50))), uint256.NewInt(uint64(300+rng.Intn(50)))
+			send := func(r *uint256.Int) bool {
+				ping := &portalwire.Ping{EnrSeq: 1, PayloadType: typ, Payload: mkPayload(typ, r, false)}
+				pb, _ := ping.MarshalSSZ()
+				_, err := p.raw.D5.TalkRequest(B.P.Self(), string(proto), append([]byte{portalwire.PING}, pb...))
+				return err == nil
+			}
+			for len(done) > 0 {
+				<-done
+			}
+			g := make(chan struct{})
+			pingGateMu.Lock()
+			pingGate[p.node.ID()] = g
+			pingGateMu.Unlock()
+			ok1 := send(r1) // answered at once; its processing goroutine waits at the gate
+			ok2 := send(r2)
+			if ok2 {
+				select { // the second ping is processed completely
+				case <-done:
+				case <-time.After(2 * time.Second):
+				}
+			}
+			close(g)
+			if ok1 {
+				select {
+				case <-done:
+				case <-time.After(2 * time.Second):
+				}
+			}
+			for i, r := range []*uint256.Int{r1, r2} {
+				if (i == 0 && ok1) || (i == 1 && ok2) {
+					w.Emit(map[string]any{"ev": "g.deliver", "t": t, "n": idx[p.node.ID()], "type": int(typ), "supported": true, "decodable": true,
+						"radius": beInts(radiusLE(r)), "via": "ping", "intable": true, "isentry": true, "newentry": false, "race": true})
+				}
+			}
+		}
 	}
 	for k := 0; k < len(raws)/3; k++ { // AddEnr for nodes that are entries already: the radius they reported stays
 		p := raws[rng.Intn(len(raws))]
